@@ -8,5 +8,6 @@ CONSTANTS
   Ticks = FALSE
   Beh = TRUE
   Mut = "none"
+  AddEv = TRUE
 CHECK_DEADLOCK FALSE
 INVARIANTS Emit
